@@ -267,7 +267,7 @@ fn shapes(tier: Tier) -> Vec<Shape> {
 }
 
 /// the operations that matter most for three-operation / three-thread programs
-const MENU_SMALL: [Op; 6] = [Op::GetA0, Op::ScriptGetA0, Op::PushA, Op::PushB, Op::ConcatAB, Op::ScriptEqBA];
+const MENU_SMALL: [Op; 5] = [Op::GetA0, Op::PushA, Op::PushB, Op::ConcatAB, Op::ScriptEqBA];
 
 fn menu(tier: Tier, shape: &Shape) -> &'static [Op] {
     match tier {
@@ -287,7 +287,7 @@ fn bound(tier: Tier, shape: &Shape) -> usize {
         Tier::Quick => 2,
         Tier::Thorough => {
             if shape.threads == 2 && shape.ops == 2 {
-                usize::MAX
+                3
             } else {
                 2
             }
